@@ -58,10 +58,13 @@ func isLabelEqual(v ssa.Value) (*ssa.Call, int) {
 // errorExit: every path from b reaches, through at most a few straight-line
 // blocks, a return whose error result is not the nil constant.
 func errorExit(b *ssa.BasicBlock) bool {
+	return errorExitFrom(b, map[ssa.Value]ssa.Value{}, 0)
+}
+
+func errorExitFrom(b *ssa.BasicBlock, stored map[ssa.Value]ssa.Value, start int) bool {
 	// stores met on the straight-line way to the return: a named error result is only as good as what was
 	// stored into it on this path
-	stored := map[ssa.Value]ssa.Value{}
-	for hops := 0; hops < 4 && b != nil; hops++ {
+	for hops := start; hops < 4 && b != nil; hops++ {
 		for _, ins := range b.Instrs {
 			if st, ok := ins.(*ssa.Store); ok {
 				// `*cell = *cell` (the result spill around rundefers) sets nothing
@@ -98,6 +101,19 @@ func errorExit(b *ssa.BasicBlock) bool {
 			return true
 		case *ssa.Jump:
 			b = b.Succs[0]
+		case *ssa.If:
+			// a fork on the way out (`if err := conn.Flush(); err != nil { return nil, err }; return nil, fmt.Errorf(…)`):
+			// both sides must leave with an error
+			for _, s := range b.Succs {
+				cp := map[ssa.Value]ssa.Value{}
+				for k, v := range stored {
+					cp[k] = v
+				}
+				if s == b || !errorExitFrom(s, cp, hops+1) {
+					return false
+				}
+			}
+			return true
 		default:
 			return false
 		}
@@ -262,6 +278,42 @@ func C16label(p *load.Program, run *report.Run) {
 					}
 				}
 			}
+			// `result.SetBit(result, i, 1)` on the arm for L1; the arm for L0 then sets nothing (the bits of a fresh
+			// integer are zero)
+			if !seen {
+				setsOn := func(blk *ssa.BasicBlock) (int64, bool) {
+					for _, ins := range blk.Instrs {
+						c, ok := ins.(*ssa.Call)
+						if !ok || c.Call.StaticCallee() == nil || c.Call.StaticCallee().Name() != "SetBit" || len(c.Call.Args) != 4 {
+							continue
+						}
+						if k, ok := c.Call.Args[3].(*ssa.Const); ok && k.Value != nil && k.Value.Kind() == constant.Int {
+							v, _ := constant.Int64Val(k.Value)
+							return v, true
+						}
+					}
+					return 0, false
+				}
+				if v, ok := setsOn(tb); ok {
+					seen = true
+					okVal = (v == 1) == want && v >= 0 && v <= 1
+				} else if idx == 0 {
+					// nothing is set for L0: fine if the chain's arm for L1 sets the bit
+					for _, ob := range f.Blocks {
+						if oi, ok := ob.Instrs[len(ob.Instrs)-1].(*ssa.If); ok {
+							oc, ot := oi.Cond, ob.Succs[0]
+							if u, ok := oc.(*ssa.UnOp); ok && u.Op == token.NOT {
+								oc, ot = u.X, ob.Succs[1]
+							}
+							if c2, i2 := isLabelEqual(oc); c2 != nil && i2 == 1 {
+								if v, ok := setsOn(ot); ok && v == 1 {
+									seen = true
+								}
+							}
+						}
+					}
+				}
+			}
 			// the false edge: another comparison, or the rejection
 			fb := fEdge
 			next := false
@@ -281,7 +333,34 @@ func C16label(p *load.Program, run *report.Run) {
 				chains++
 				run.OK("unknown-label-rejected", ckey, p.Rel(call.Pos()), "neither label: error return")
 			default:
-				run.Violate("unknown-label-rejected", ckey, p.Rel(call.Pos()), "when the label equals neither L0 nor L1 the function does not leave with an error: a corrupted output label is turned into a result bit", nil)
+				// the rejection put off to the end of the message: counted, or remembered in a variable that holds a
+				// sentinel until then
+				var ub []*ssa.BasicBlock
+				if len(fb.Preds) == 1 {
+					for _, x := range f.Blocks {
+						if x == fb || fb.Dominates(x) {
+							ub = append(ub, x)
+						}
+					}
+				}
+				why2 := ""
+				if len(ub) > 0 {
+					if why1 := countedAndTested(f, ub); why1 == "" {
+						chains++
+						run.OK("unknown-label-rejected", ckey, p.Rel(call.Pos()), "neither label: counted, and the count is tested before every success return")
+						continue
+					}
+					if why2 = flaggedAndTested(f, ub); why2 == "" {
+						chains++
+						run.OK("unknown-label-rejected", ckey, p.Rel(call.Pos()), "neither label: remembered in a variable that otherwise keeps its sentinel, tested before every success return")
+						continue
+					}
+				}
+				msg := "when the label equals neither L0 nor L1 the function does not leave with an error: a corrupted output label is turned into a result bit"
+				if why2 != "" && !strings.HasPrefix(why2, "no variable") {
+					msg += " (" + why2 + ")"
+				}
+				run.Violate("unknown-label-rejected", ckey, p.Rel(call.Pos()), msg, nil)
 			}
 		}
 		decider[f] += chains
@@ -447,7 +526,50 @@ func C16label(p *load.Program, run *report.Run) {
 							}
 						}
 					}
-					if checked {
+					deferred := ""
+					if !checked && !boolOK {
+						// the rejection is put off: the failure is counted and the count is tested before any success
+						var ub []*ssa.BasicBlock
+						for _, rf := range *errv.Referrers() {
+							bo, ok := rf.(*ssa.BinOp)
+							if !ok || (bo.Op != token.NEQ && bo.Op != token.EQL) {
+								continue
+							}
+							for _, r2 := range *bo.Referrers() {
+								iff, ok := r2.(*ssa.If)
+								if !ok {
+									continue
+								}
+								eb := iff.Block().Succs[0]
+								if bo.Op == token.EQL {
+									eb = iff.Block().Succs[1]
+								}
+								if len(eb.Preds) != 1 {
+									continue
+								}
+								for _, x := range fn.Blocks {
+									if x == eb || eb.Dominates(x) {
+										ub = append(ub, x)
+									}
+								}
+							}
+						}
+						if len(ub) > 0 {
+							if why := countedAndTested(fn, ub); why == "" {
+								checked = true
+								deferred = "failure counted; the count is tested against zero before every success return, the other side is an error"
+							} else {
+								deferred = why
+							}
+						}
+					}
+					if checked && deferred != "" {
+						decider[fn]++
+						grew = true
+						run.OK("unknown-label-rejected", key, p.Rel(c.Pos()), deferred)
+					} else if !checked && deferred != "" {
+						run.Violate("unknown-label-rejected", key, p.Rel(c.Pos()), "the error of "+callee.Name()+" does not end the function with an error, and "+deferred, nil)
+					} else if checked {
 						decider[fn]++
 						grew = true
 						run.OK("unknown-label-rejected", key, p.Rel(c.Pos()), "error tested, error return")
@@ -594,6 +716,17 @@ func accumulatedRejection(f *ssa.Function) (why string, found bool) {
 	if len(unknownBlocks) == 0 {
 		return "the label is compared with both wire labels by XOR folds, but no branch is taken exactly when both folds are non-zero: the outcomes are combined with arithmetic on the folded words (two non-zero words can AND to zero), so a label that is neither L0 nor L1 is not reliably rejected", true
 	}
+	return countedAndTested(f, unknownBlocks), true
+}
+
+// countedAndTested: the blocks in unknownBlocks are reached exactly when a label was not recognised.  Something
+// is counted or flagged there, and every success return lies behind a test of that count against zero whose
+// other side is an error.  The tested value may be derived from the count by steps that keep non-zero
+// non-zero: min(count, K) with K > 0, and a conversion that does not narrow (or narrows a value already capped
+// within the narrow type).  A narrowing conversion of the count itself wraps: 256 unknown labels read as none.
+func countedAndTested(f *ssa.Function, unknownBlocks []*ssa.BasicBlock) (why string) {
+	found := true
+	_ = found
 	// the counter: a phi with a constant-zero edge and an edge that is phi + positive constant computed in an unknown block
 	var counter *ssa.Phi
 	for _, b := range f.Blocks {
@@ -640,7 +773,7 @@ func accumulatedRejection(f *ssa.Function) (why string, found bool) {
 		}
 	}
 	if counter == nil {
-		return "both XOR folds are tested, but nothing is counted or flagged on the branch where both are non-zero", true
+		return "nothing is counted or flagged on the branch taken for a label that is neither of the wire's two"
 	}
 	// success returns lie behind `counter == 0`
 	related := func(v ssa.Value) bool {
@@ -654,12 +787,58 @@ func accumulatedRejection(f *ssa.Function) (why string, found bool) {
 				return false
 			}
 			seen[x] = true
-			if ph, ok := x.(*ssa.Phi); ok {
-				for _, e := range ph.Edges {
+			switch t := x.(type) {
+			case *ssa.Phi:
+				for _, e := range t.Edges {
 					if walk(e, d+1) {
 						return true
 					}
 				}
+			case *ssa.Call:
+				// min(count, K), K > 0
+				if bi, ok := t.Call.Value.(*ssa.Builtin); ok && bi.Name() == "min" {
+					rel := false
+					for _, a := range t.Call.Args {
+						if k, isC := a.(*ssa.Const); isC {
+							if k.Value == nil || k.Value.Kind() != constant.Int || constant.Sign(k.Value) <= 0 {
+								return false
+							}
+							continue
+						}
+						if !walk(a, d+1) {
+							return false
+						}
+						rel = true
+					}
+					return rel
+				}
+			case *ssa.Convert:
+				from, ok1 := t.X.Type().Underlying().(*types.Basic)
+				to, ok2 := t.Type().Underlying().(*types.Basic)
+				if !ok1 || !ok2 || from.Info()&types.IsInteger == 0 || to.Info()&types.IsInteger == 0 {
+					return false
+				}
+				sizes := types.SizesFor("gc", "amd64")
+				if sizes.Sizeof(to) >= sizes.Sizeof(from) {
+					return walk(t.X, d+1)
+				}
+				// narrowing: only of a value capped within the narrow type
+				if c, ok := t.X.(*ssa.Call); ok {
+					if bi, ok := c.Call.Value.(*ssa.Builtin); ok && bi.Name() == "min" {
+						bits := uint(8 * sizes.Sizeof(to))
+						if to.Info()&types.IsUnsigned == 0 {
+							bits--
+						}
+						for _, a := range c.Call.Args {
+							if k, isC := a.(*ssa.Const); isC && k.Value != nil && k.Value.Kind() == constant.Int {
+								if v, exact := constant.Uint64Val(k.Value); exact && v < 1<<bits {
+									return walk(c, d+1)
+								}
+							}
+						}
+					}
+				}
+				return false
 			}
 			return false
 		}
@@ -701,8 +880,8 @@ func accumulatedRejection(f *ssa.Function) (why string, found bool) {
 			}
 		}
 		if !ok {
-			return "unknown labels are counted, but a success return is reachable without the count having been tested against zero on a branch whose other side is an error", true
+			return "unknown labels are counted, but a success return is reachable without the count having been tested against zero on a branch whose other side is an error (a count that was narrowed first wraps: 256 unknown labels read as none)"
 		}
 	}
-	return "", true
+	return ""
 }
